@@ -122,6 +122,11 @@ def mixed_pool():
     m.append(("a_mix_nd", Array(mixq(), own("ndarray of a_mix_nd", np.array([1.0, 3.0, 5.0])))))
     m.append(("a_md_nd", Array(own("ndarray of a_md_nd(m)", np.array([1.0, 2.0, 3.0])), "m", "length") * Array(own("ndarray of a_md_nd(depth)", np.array([1.0, 1.0, 2.0])), "m", "depth")))
     m.append(("f_mix", FixedArray(3, mixq(), own("tuple of f_mix", (1.0, 2.0, 3.0)))))
+    # a caption on a KNOWN unit and on a derived quantity (captions are part of equality)
+    from barril.units import ObtainQuantity
+
+    m.append(("s_cap", Scalar(ObtainQuantity("m", "length", "cable"), 2.0)))
+    m.append(("f_cap_derived", FixedArray(3, Quantity.CreateDerived(OrderedDict([("length", ["m", 2])]), unknown_unit_caption="plate"), own("list of f_cap_derived", [1.0, 2.0, 3.0]))))
     return m, owned
 
 
